@@ -59,14 +59,16 @@ def run(tier, seed):
     rnd = random.Random(seed)
     chk.assumptions += ["HTML is projected to href/id events with python's html.parser", "a key is either cited or listed as 'not cited'; inline note texts are distinct; heading titles in one document are distinct",
                         "heading ids are predicted for titles over letters, digits, punctuation and two multi-byte characters (place-holders substituted bijectively)"]
-    ga = tlc.run("Notes", GEN % (3 if tier == "quick" else 4, 0, "FALSE"), workers=NCPU, timeout=1500, heap="16g")
+    ga = tlc.run("Notes", GEN % (3, 0, "FALSE"), workers=NCPU, timeout=1500, heap="16g")          # (4 events: tens of millions of documents -- longer histories come from the simulation below)
     gh = tlc.run("Notes", GEN % (0, 2, "FALSE"), workers=NCPU, timeout=900)
     if ga.violated or gh.violated: raise FrameworkError("Notes: NumberingOK violated")
-    gs = tlc.run("Notes", GEN % (5, 3, "TRUE"), workers=4, simulate=(150 if tier == "quick" else 2000), depth=10, seed=seed, timeout=900)
+    gs = tlc.run("Notes", GEN % (5, 3, "TRUE"), workers=4, simulate=(150 if tier == "quick" else 6000), depth=10, seed=seed, timeout=900)
     chk.cov["states"] = ga.distinct + gh.distinct; chk.cov["transitions"] = max(ga.generated + gh.generated, 1)
     A = ga.printed; Hh = gh.printed
-    if tier == "quick":
-        A = rnd.sample(A, min(len(A), 2500)); Hh = rnd.sample(Hh, min(len(Hh), 2500))
+    chk.cov["documents_enumerated"] = len(A) + len(Hh)
+    # TLC enumerates all of them; a seeded sample is replayed (quick 2 x 2500, thorough 2 x 40000)
+    cap = 2500 if tier == "quick" else 40000
+    A = rnd.sample(A, min(len(A), cap)); Hh = rnd.sample(Hh, min(len(Hh), cap))
     dl = uniq(A + Hh + gs.printed, key=lambda d: d["src"])
     exe = build.build_harness("asan")
     segs = []; per = 25; owners = []
@@ -94,7 +96,7 @@ def run(tier, seed):
     nconv = len([e for e in trace if e["e"] == "anchors"])
     chk.add("traces_validated_against_impl", nconv - len(rejected))
     chk.cov["evaluations"] = nconv; chk.cov["distinct_nontrivial"] = len(dl)
-    chk.cov["rule"] = "documents: TLC BFS over note histories of <= %d events (calls to 3 labels x 3 kinds, inline footnotes, not-cited citations) x {plain, list, quote} x TOC x table; TLC BFS over 1-2 headings (5 title shapes x 4 styles x manual label x referenced); simulation mixing 5 events and 3 headings; each with and without 'Base Header Level: 2' metadata, rendered default and (rotating) with --random / --unique / --nolabels" % (3 if tier == "quick" else 4)
+    chk.cov["rule"] = "documents: TLC BFS over note histories of <= 3 events%.0s (calls to 3 labels x 3 kinds, inline footnotes, not-cited citations) x {plain, list, quote} x TOC x table; TLC BFS over 1-2 headings (5 title shapes x 4 styles x manual label x referenced); simulation mixing 5 events and 3 headings; each with and without 'Base Header Level: 2' metadata, rendered default and (rotating) with --random / --unique / --nolabels" % (3 if tier == "quick" else 4)
     chk.sample(dict(src=dl[3]["src"][:300])); chk.sample(dict(src=gs.printed[-1]["src"][:400]))
     seen = {}
     for seg, idx in rejected:
